@@ -57,7 +57,7 @@ int main(int argc, char** argv) {
     const bool T = R.thorough();
     const unsigned maxdepth = T ? 14 : 10;
     std::vector<Cfg> cfgs;
-    for (unsigned N : (T ? std::vector<unsigned>{16, 24, 30, 32, 37, 64} : std::vector<unsigned>{16, 30, 32, 33})) {
+    for (unsigned N : (T ? std::vector<unsigned>{16, 24, 30, 32, 33, 37, 64, 75, 128} : std::vector<unsigned>{16, 30, 32, 33})) {
         cfgs.push_back(Cfg{4, 1, N, 0, {0}});       // as main() builds the radiation field
         cfgs.push_back(Cfg{4, 1, N, 5, {1}});       // single bunch not in bucket 0
         cfgs.push_back(Cfg{4, 2, N, 5, {1, 0}});
